@@ -176,6 +176,30 @@ def tlc_trace(ctx, cfg, module, trace_file, timeout=900):
     return False, (last if last is not None else unmatched)
 
 
+def trace_core(ctx, prop, runs):
+    """impl -> spec: record random runs from the real crate, let TLC validate them against TraceCore."""
+    tf = os.path.join(ctx.scratch, f"trace-{prop}.ndjson")
+    s = hv(ctx, "record", trace=tf, runs=runs)
+    ok, line_no = tlc_trace(ctx, f"trace/TraceCore{prop}.cfg", "trace/TraceCore.tla", tf)
+    idx = s["extra"]["runs"]
+    if ok:
+        ctx.traces += len(idx)
+        ctx.extra["trace_events_validated"] = ctx.extra.get("trace_events_validated", 0) + s.get("evaluations", 0)
+        return
+    # which run does the first unmatched line belong to
+    run = next((r for r in idx if r["first_line"] <= (line_no or 0) - 0 <= r["last_line"] + 1), idx[-1])
+    ctx.traces += sum(1 for r in idx if r["last_line"] < (line_no or 0))
+    lines = open(tf).read().splitlines()
+    ev = json.loads(lines[line_no - 1]) if line_no and line_no <= len(lines) else {}
+    if "proj" in ev:
+        ev["proj"] = "<projection omitted>"
+    os.makedirs(REPLAYS, exist_ok=True)
+    rp = os.path.join(REPLAYS, f"{prop}-trace-seed{ctx.seed}-run{run['run']}.json")
+    json.dump({"cmd": "trace-core", "property": prop, "seed": ctx.seed, "run": run["run"], "line": line_no, "event": ev,
+               "diffs": [f"recorded event at trace line {line_no} is not a step of the specification (TraceCore, focus {prop})"]}, open(rp, "w"), indent=1)
+    ctx.violations.append(dict(property=prop, what=f"trace validation: event {ev.get('e')} of run {run['run']} rejected by the specification", replay=rp))
+
+
 def load_known():
     p = os.path.join(VERIF, "known_findings.json")
     if not os.path.exists(p):
@@ -282,6 +306,7 @@ def check_C01(ctx):
         raise ToolError("TLC produced no behaviours to replay")
     s = hv(ctx, "replay-core", prop="C01", **{"in": allout}, jax_every=(8 if ctx.quick else 2))
     ctx.traces += s.get("cases", 0)
+    trace_core(ctx, "C01", 10 if ctx.quick else 300)
     ctx.assumptions += [
         "TLC explores the stated finite model exhaustively; beyond its bounds (more than 4-5 terms) only simulated/recorded runs are validated",
         "the harness' binary encoder and obo writer are cross-checked against the TLA+ encoders by the C08 / C09 checks",
@@ -312,6 +337,7 @@ def check_C02(ctx):
     allout = concat(ctx, outs, "c02-lines.txt")
     s = hv(ctx, "replay-core", prop="C02", **{"in": allout}, jax_every=(4 if ctx.quick else 1), concs="dense,roots0_1,random")
     ctx.traces += s.get("cases", 0)
+    trace_core(ctx, "C02", 10 if ctx.quick else 300)
     ctx.assumptions += ["kinds are independent instances of one machine in the spec; leaks between kinds are detected at the binding level (ids shared across kinds)",
                         "exhaustive within 3-4 term ids and <=3 facts; simulation beyond"]
     return finish(ctx)
@@ -522,11 +548,41 @@ def replay(path):
         log(f"TOOL-ERROR: {e}")
         return 2
     v = json.load(open(path))
-    if v.get("cmd") == "trace":
-        import hvtrace
-        return hvtrace.replay(path, v)
+    if v.get("cmd") in ("trace-core", "trace-binary"):
+        return replay_trace(path, v)
     r = subprocess.run([HV, "replay-one", "--file", path])
     return r.returncode
+
+
+def replay_trace(path, v):
+    prop = v["property"]
+    ctx = Ctx(prop, "quick", int(v.get("seed", 1)))
+    try:
+        if v["cmd"] == "trace-core":
+            tf = os.path.join(ctx.scratch, "replay.ndjson")
+            hv(ctx, "record", trace=tf, runs=int(v["run"]) + 1, only_run=v["run"])
+            ok, line_no = tlc_trace(ctx, f"trace/TraceCore{prop}.cfg", "trace/TraceCore.tla", tf)
+        else:
+            src = os.path.join(ctx.scratch, "line.txt")
+            with open(src, "w") as fh:
+                fh.write('<<"REPLAY", %s>>\n' % json.dumps(json.dumps(v["line"])))
+            dump = os.path.join(ctx.scratch, "dump")
+            hv(ctx, "replay-binary", prop="C07", **{"in": src}, dump=dump, procs=1)
+            recs, _ = gather(dump)
+            tf = os.path.join(ctx.scratch, "replay.ndjson")
+            open(tf, "w").write("\n".join(r for r in recs if json.loads(r)["src"] == v.get("src")) + "\n")
+            ok, line_no = tlc_trace(ctx, "trace/TraceBinary.cfg", "trace/TraceBinary.tla", tf)
+        if ok:
+            log("not reproduced on the current tree")
+            return 0
+        log(f"reproduced: the specification rejects the recorded trace at line {line_no}")
+        log(f"VIOLATION property={prop} replay={path}")
+        return 1
+    except ToolError as e:
+        log(f"TOOL-ERROR: {e}")
+        return 2
+    finally:
+        ctx.cleanup()
 
 
 def main(argv):
